@@ -480,6 +480,11 @@ def run(ctx):
     run_r5(ctx, r5)
     r7 = ctx.rule("C07-R7", "a scan starting at a constant offset steps over examined bytes only (none of them can be the line end)", floor=2)
     run_r7(ctx, r7)
+    # R8: a clause may continue on the next line -- also when it then fails: the error for a literal on a continuation
+    # line is computed from a mark set on that line (mark discipline of C08-R1, run here too)
+    from .c08 import run_r1 as c08_r1
+    r8 = ctx.rule("C07-R8", "errors for tokens on a continuation line are located from a mark set on that line (shared with C08-R1)", floor=8)
+    c08_r1(ctx, r8)
     # R6: the byte classes the layout freedoms rest on (LF | CRLF, space | tab) -- the exact behaviour comparison
     # of C16-R3 for text::newline and text::tabs_or_spaces, and their schedule independence (no reader call
     # other than the look-ahead: a CRLF split between two reads must still be one line end)
